@@ -877,3 +877,60 @@ def const_value(F, body, o, depth=10):
         else:
             return None
     return None
+
+
+def result_origins(b, l, depth=0):
+    """the call destinations (locals) whose Result the whole local `l` carries: through moves, `?` (Try::branch) and
+    Result::or / or_else-free combinations (`a.or(b)` carries both)."""
+    if depth > 8:
+        return set()
+    alld = b.defs.get(l, [])
+    if len(alld) != 1 or alld[0][2] == "proj":
+        return {l}
+    d = alld[0]
+    if d[2] == "call":
+        t = d[3]
+        nm = t["f"].get("fn") or ""
+        if nm.endswith("Try::branch") or re.search(r"result::Result::<.*>::or$", nm):
+            out = set()
+            for a in t["args"]:
+                p = op_place(a)
+                if p is not None and not p["p"]:
+                    out |= result_origins(b, p["l"], depth + 1)
+            return out
+        return {l}
+    rv = d[3]
+    if rv["k"] == "use":
+        p = op_place(rv["o"])
+        if p is not None and not p["p"]:
+            return result_origins(b, p["l"], depth + 1)
+    return {l}
+
+
+def success_edges(b):
+    """[(origins, block)]: blocks entered only when the Result(s) `origins` (see result_origins) were Ok: the 0-edge of a
+    switch on discriminant(x) where x is a Result (Ok = 0) or the ControlFlow of x? (Continue = 0)."""
+    out = []
+    for g in range(b.n):
+        t = b.term(g)
+        if t["k"] != "switch" or t["dty"] == "bool":
+            continue
+        p = op_place(t["d"])
+        if p is None or p["p"]:
+            continue
+        d = b.single_def(p["l"])
+        if not (d and d[2] == "rv" and d[3]["k"] == "discr"):
+            continue
+        src = d[3]["p"]
+        if src["p"]:
+            continue
+        ty = b.lty(src["l"])
+        if not (re.match(r"^(std|core)::result::Result<", ty) or re.match(r"^(std|core)::ops::ControlFlow<(std|core)::result::Result<", ty)):
+            continue
+        org = result_origins(b, src["l"])
+        tgt = [x for v, x in t["tg"] if v == "0"]
+        other = [x for v, x in t["tg"] if v != "0"] + [t["else"]]
+        for x in tgt:
+            if x not in other and len(b.pred[x]) == 1:
+                out.append((org, x))
+    return out
